@@ -410,8 +410,39 @@ func runC08(c *Ctx) {
 
 	c.Rule("C08-R9", "operand access: stack operands are converted to machine integers only when guarded, clamped (getDataBig) or sized by memorySize, so offsets >= 2^64 read as zero padding", func() {
 		vmMemoryOperandRule(c, "C08-R9", tabs)
+		// the data helpers always hand back exactly `size` bytes: the available part of the source followed by zero
+		// padding – a shorter result makes Memory.Set leave stale bytes where the specification requires zeros
+		for _, spec := range []struct{ fn, size string }{{"core/vm:getData", "uint64#1"}, {"core/vm:getDataBig", "Int#1.Uint64()"}} {
+			fn := c.Fn(spec.fn)
+			f := c.Facts(fn)
+			nr := 0
+			for _, rs := range f.AllReturns() {
+				nr++
+				t := f.tr.term(rs.State, rs.Ret.Results[0], 0)
+				ok := strings.HasPrefix(t, "common.RightPadBytes([]byte#0[") && strings.HasSuffix(t, "], "+spec.size+")")
+				c.Ob("C08-R9", shortFn(fn)+": every return is the source slice right-padded with zeros to the requested size", c.Position(rs.Ret.Pos()), ok, "returns "+t)
+			}
+			c.Ob("C08-R9", shortFn(fn)+" returns", c.FnPos(fn), nr >= 1, fmt.Sprintf("%d", nr))
+		}
+		rp := c.Fn("common:RightPadBytes")
+		frp := c.Facts(rp)
+		for _, rs := range frp.AllReturns() {
+			t := frp.tr.term(rs.State, rs.Ret.Results[0], 0)
+			ok := t == "[]byte#0" && (rs.State.lits["int#0 <= len([]byte#0)"] || rs.State.lits["len([]byte#0) >= int#0"])
+			if ms, isMake := stripConvAll(rs.Ret.Results[0]).(*ssa.MakeSlice); isMake && stripConvAll(ms.Len) == ssa.Value(rp.Params[1]) {
+				// a fresh buffer of the requested length that received a copy of the input from its start
+				for _, r := range *ms.Referrers() {
+					if call, isCall := r.(*ssa.Call); isCall {
+						if bi, isB := call.Call.Value.(*ssa.Builtin); isB && bi.Name() == "copy" && call.Call.Args[0] == ssa.Value(ms) && call.Call.Args[1] == ssa.Value(rp.Params[0]) {
+							ok = true
+						}
+					}
+				}
+			}
+			c.Ob("C08-R9", "common.RightPadBytes returns the input (already long enough) or a fresh buffer of the requested length", c.Position(rs.Ret.Pos()), ok, "returns "+t+" under "+strings.Join(guardLits(rs.State), "; "))
+		}
 	})
-	c.Min("C08-R9", 60)
+	c.Min("C08-R9", 66)
 
 	c.Rule("C08-R7", "integer-pool ownership: nothing is both pushed and pooled; nothing peeked is pooled", func() {
 		n := 0
@@ -425,6 +456,10 @@ func runC08(c *Ctx) {
 		c.Extra["push_sites"] = vmPushOwnershipRule(c, "C08-R7")
 	})
 	c.Min("C08-R7", 60)
+
+	// "exceptional-halt behaviour" of stack instructions: the per-entry stack validation (items required, room for the
+	// net growth up to 1024) and its agreement with what each execute function really pops and pushes is C07-R6
+	c.Borrow("C07", runC07, map[string]string{"C07-R6": "C08-R10"})
 }
 
 // vmConstGas evaluates the gas function of an entry if it is a compile-time constant.
